@@ -9,7 +9,7 @@ _M_FROM = "exists(%s, lambda it: item_module(it) is from_module(updated_node) an
 
 
 def _contract(name, matched, cond_inner, requires=None):
-    contract(P + "RemoveImportsTransformer." + name, props=["C16"], theories=TH, requires=requires or {},
+    contract(P + "RemoveImportsTransformer." + name, props=["C16", "C15"], theories=TH, requires=requires or {},
              params={"self": "ImpTransformer", "original_node": "ImportNode", "updated_node": "ImportNode"}, result="ImportNode",
              ensures={
                  # every import the source already had stays: a name is removed only if the ImportItem it denotes (module, object, alias) is in the move list
@@ -36,7 +36,7 @@ _contract("leave_Import", _M_IMP, "item_module({it}) is alias_name(name) and ite
           requires={"import-statement": "not is_star(updated_node)"})
 _contract("leave_ImportFrom", _M_FROM, "item_module({it}) is from_module(updated_node) and item_obj({it}) is alias_obj(name) and item_alias({it}) is alias_asname(name)")
 
-contract(P + "MoveImportsToTypeCheckingBlockVisitor._remove_typing_module", props=["C16"], theories=TH,
+contract(P + "MoveImportsToTypeCheckingBlockVisitor._remove_typing_module", props=["C16", "C15"], theories=TH,
          params={"import_item_list": "Seq[Item]"}, result="Seq[Item]",
          # whatever generated code needs at import time (typing names, the TypedDict base class) is never in the list that gets confined
          ensures={"post:runtime-needed-not-moved": "forall(result, lambda it: item_module(it) != 'typing' and item_module(it) != 'mypy_extensions')",
